@@ -326,6 +326,47 @@ def _reuse_job(E0: int, M0: int, E: int, M: int) -> Callable[[], Record]:
     return run
 
 
+def _rounding_reassigned_job(E: int, M: int) -> Callable[[], Record]:
+    """History: an object constructed with the default (stochastic) rounding -- __post_init__ then
+    stores srbits = 23 - M on it -- whose `rounding` field is set to "nearest" afterwards must
+    quantise as a fresh nearest-rounding format does."""
+
+    def run() -> Record:
+        tag = f"C13:formats.FPFormat[E{E}M{M},stochastic->nearest]"
+
+        def build(ctx: Ctx) -> Any:
+            it = mk_bit_interp(ctx, [FM + "FPFormat.quantise"])
+            x = fp32("x")
+            preconditions(ctx, E, x)
+
+            def thunk() -> Any:
+                q = lookup_fn(it, FM + "FPFormat.quantise")
+                fmt = mk_format(it, E, M, "stochastic")
+                it.setattr(fmt, "rounding", "nearest")
+                r = it.call(q, [fmt, BitTensor(Shape([Run(ctx, "a")]), "float32", x, Storage("input:x1"), "x1")], {})
+                fresh = it.call(q, [mk_format(it, E, M, "nearest"), BitTensor(Shape([Run(ctx, "a")]), "float32", x, Storage("input:x2"), "x2")], {})
+                return r, fresh
+
+            return it, thunk
+
+        def post(p: PathResult, i: int) -> Any:
+            ctx = p.ctx
+            if p.outcome != "return":
+                ctx.oblige(f"{tag}:no_exception", False, exc=str(p.exc))
+                return None
+            r, fresh = p.value
+            ctx.oblige(f"{tag}:quantise_equals_a_fresh_nearest_format", z3.fpToIEEEBV(r.elem) == z3.fpToIEEEBV(fresh.elem), bit_precise=True)
+            return {"x_bits": z3.fpToIEEEBV(z3.FP("x", z3.Float32()))}
+
+        return run_config(FM + "FPFormat.quantise", {"E": E, "M": M, "history": "rounding reassigned after construction"}, build, post)
+
+    return run
+
+
+for _E, _M in ((2, 0), (4, 3), (5, 2)):
+    register(Job(f"c13:reuse[E{_E}M{_M},stochastic->nearest]", ["C13"], FM + "FPFormat.quantise", {"E": _E, "M": _M, "history": "rounding"}, _rounding_reassigned_job(_E, _M)))
+
+
 for (_E0, _M0), (_E, _M) in (((5, 2), (4, 3)), ((4, 3), (5, 2)), ((8, 23), (2, 1))):
     register(Job(f"c13:reuse[E{_E0}M{_M0}->E{_E}M{_M}]", ["C13"], FM + "FPFormat.quantise", {"E0": _E0, "M0": _M0, "E": _E, "M": _M}, _reuse_job(_E0, _M0, _E, _M)))
 
